@@ -800,12 +800,14 @@ fn input_path_to_segments(path: &InputPath) -> Result<Vec<String>, String> {
     path.0
         .split('/')
         .filter(|segment| !segment.is_empty())
-        .map(|segment| match segment {
-            "." | ".." => Err("dot-segments are not permitted".to_string()),
-            _ => Ok(percent_decode_str(segment)
+        .map(|segment| {
+            let decoded = percent_decode_str(segment)
                 .decode_utf8()
-                .map_err(|e| e.to_string())?
-                .to_string()),
+                .map_err(|e| e.to_string())?;
+            match decoded.as_ref() {
+                "." | ".." => Err("dot-segments are not permitted".to_string()),
+                _ => Ok(decoded.to_string()),
+            }
         })
         .collect()
 }
